@@ -102,12 +102,16 @@ func (e *executor) execPhase(op hcOp, r *stepResult) {
 	for _, c := range m.live() {
 		pre[c.ID] = c.Res.Cpus + "|" + c.Res.Mems
 	}
-	hasLifecycle := false
+	hasLifecycle, hasSync := false, false
 	for _, ln := range op.Phase.Lanes {
 		if ln.Kind == "lifecycle" {
 			hasLifecycle = true
 		}
+		if ln.Kind == "sync" {
+			hasSync = true
+		}
 	}
+	hasSync = hasSync && !hasLifecycle
 	updCands := m.live()
 	var lanes []func()
 	var cfgLane *hcLane
@@ -142,7 +146,10 @@ func (e *executor) execPhase(op hcOp, r *stepResult) {
 			pr.kinds["lifecycle"] = true
 			lanes = append(lanes, func() { e.runLifecycleLane(li, ln, pod, ctrs, record, yield) })
 		case "update":
-			if len(updCands) == 0 || ln.Upd == nil {
+			if len(updCands) == 0 || ln.Upd == nil || hasSync {
+				// (the lists handed to a concurrent Synchronize are a snapshot taken before the
+				// phase: with a resource update in the same phase they would not be the
+				// runtime's state at any serialization point)
 				continue
 			}
 			idx := ln.A % len(updCands)
@@ -573,11 +580,15 @@ func genPhase(t *rapid.T, o genOpts, topo *vfkit.Topo, anns []annGen, genCfg fun
 			ph.Lanes = append(ph.Lanes, ln)
 		}
 	}
-	for i, n := 0, rapid.IntRange(0, 2).Draw(t, "nupdates"); i < n; i++ {
+	for i, n := 0, rapid.IntRange(0, 2).Draw(t, "nupdates"); i < n && !syncPhase; i++ {
 		qos := rapid.SampledFrom([]string{"guaranteed", "burstable"}).Draw(t, "updQos")
 		ph.Lanes = append(ph.Lanes, hcLane{Kind: "update", A: rapid.IntRange(0, 50).Draw(t, "updTarget"), Upd: genCtr(t, o, topo, qos, "c0"), Yields: yields(1)})
 	}
-	switch rapid.IntRange(0, 3).Draw(t, "cfgLane") {
+	cfgLane := rapid.IntRange(0, 3).Draw(t, "cfgLane")
+	if syncPhase {
+		cfgLane %= 2 // a Synchronize always races with a configuration update
+	}
+	switch cfgLane {
 	case 0:
 		ph.Lanes = append(ph.Lanes, hcLane{Kind: "reconfig", Cfg: genCfg(t), Yields: yields(1)})
 	case 1:
